@@ -1,5 +1,5 @@
 (* C12 - validation modes change the report, never the verdict; errors point at data. *)
-From KV Require Import Model.Base Model.Json Model.Schema Spec.SchemaSpec Spec.SchemaGuards
+From KV Require Import Model.Base Model.Json Model.Schema Spec.SchemaSpec Spec.SchemaGuards Spec.SchemaGuardsRW
      Proofs.SchemaProofs Proofs.SchemaMain.
 Local Open Scope list_scope.
 
@@ -8,15 +8,15 @@ Local Open Scope list_scope.
    their oracles *)
 Theorem C12_verdict_mode_indep :
   forall rc rm fo st st' s v,
-    st_asreq st = false -> st_asrep st = false -> st_asreq st' = false -> st_asrep st' = false ->
-    g_all rc s = true -> vg v = true -> g_div s v = true ->
+    md_of st = md_of st' ->     (* same reading (plain / request / response, same exclusions) *)
+    g_all2 rc rm fo (md_of st) s = true -> g_all2 rc rm fo (md_of st') s = true -> vg v = true -> g_div s v = true ->
     accepts (visit rc rm fo st s v) = accepts (visit rc rm fo st' s v) /\
     is_panic (visit rc rm fo st s v) = false /\ is_panic (visit rc rm fo st' s v) = false.
 Proof.
-  intros rc rm fo st st' s v H1 H2 H3 H4 Hg Hv Hd.
-  destruct (main_visit rc rm fo st H1 H2 s v Hg Hv Hd) as [P A].
-  destruct (main_visit rc rm fo st' H3 H4 s v Hg Hv Hd) as [P' A'].
-  repeat split; congruence.
+  intros rc rm fo st st' s v Hm Hg Hg' Hv Hd.
+  destruct (main_visit rc rm fo st s v Hg Hv Hd) as [P A].
+  destruct (main_visit rc rm fo st' s v Hg' Hv Hd) as [P' A'].
+  repeat split; try assumption. rewrite A, A', Hm. reflexivity.
 Qed.
 Print Assumptions C12_verdict_mode_indep.
 
